@@ -1,12 +1,695 @@
-//! C10 - not implemented yet
-use crate::common::Report;
+//! C10 - primitive operations follow their documented NumPy-style modular semantics.
+//!
+//! Bounded-exhaustive exploration: one-operation graphs for every primitive operation x scalar types x
+//! shapes x parameter alphabets x operand value patterns are built with the REAL builder (which decides
+//! what is well-typed), evaluated with the REAL SimpleEvaluator and compared with E3, the reference
+//! interpreter in c10/refsem.rs (written from the doc comments and NumPy's rules, no shared code).
+//! Thorough tier: ~20000 (op, params, operands, E3 result) cases are recomputed by NumPy on exact
+//! Python integers (c10/numpy_oracle.py); a disagreement there is a machinery error.
+mod fams;
+mod fills;
+mod real;
+mod refsem;
 
-pub fn run(_r: &Report) -> i32 {
-    println!("MACHINERY-ERROR property=C10 check not implemented");
-    2
+use crate::common::{hash_str, Report};
+use fams::*;
+use rayon::prelude::*;
+use real::*;
+use refsem::*;
+use serde_json::{json, Value as J};
+use std::collections::BTreeMap;
+
+// ------------------------------------------------------------------ rendering
+
+fn signed_str(x: u128, st: St) -> String {
+    if st.signed && (x >> (st.bits - 1)) & 1 == 1 {
+        if st.bits == 128 {
+            (x as i128).to_string()
+        } else {
+            ((x as i128) - (1i128 << st.bits)).to_string()
+        }
+    } else {
+        x.to_string()
+    }
+}
+fn show_rt(t: &RT) -> String {
+    match t {
+        RT::Scalar(st) => st.name(),
+        RT::Array(sh, st) => format!("{}{:?}", st.name(), sh),
+        RT::Tuple(v) => format!("({})", v.iter().map(show_rt).collect::<Vec<_>>().join(", ")),
+        RT::Named(v) => format!("{{{}}}", v.iter().map(|(n, x)| format!("{}: {}", n, show_rt(x))).collect::<Vec<_>>().join(", ")),
+        RT::Vector(n, e) => format!("vec{}<{}>", n, show_rt(e)),
+    }
+}
+fn show_rv(v: &RV) -> J {
+    match v {
+        RV::A(a) => {
+            let vals: Vec<String> = a.data.iter().take(96).map(|x| signed_str(*x, a.st)).collect();
+            json!({"type": show_rt(&a.rt()), "elements": vals})
+        }
+        RV::Tuple(vs) | RV::Vector(_, vs) => J::Array(vs.iter().map(show_rv).collect()),
+        RV::Named(vs) => J::Array(vs.iter().map(|x| json!({x.0.clone(): show_rv(&x.1)})).collect()),
+    }
+}
+fn leaves_of<'a>(v: &'a RV, out: &mut Vec<&'a Arr>) {
+    match v {
+        RV::A(a) => out.push(a),
+        RV::Tuple(vs) | RV::Vector(_, vs) => vs.iter().for_each(|x| leaves_of(x, out)),
+        RV::Named(vs) => vs.iter().for_each(|x| leaves_of(&x.1, out)),
+    }
+}
+/// observed == expected with every 128-bit element cut to its low 64 bits (and they do differ)?
+fn lost_high_bits(exp: &RV, obs: &RV) -> bool {
+    let (mut le, mut lo) = (vec![], vec![]);
+    leaves_of(exp, &mut le);
+    leaves_of(obs, &mut lo);
+    if le.len() != lo.len() {
+        return false;
+    }
+    for (e, o) in le.iter().zip(lo.iter()) {
+        if e.st != o.st || e.shape != o.shape || e.data.len() != o.data.len() {
+            return false;
+        }
+        for (x, y) in e.data.iter().zip(o.data.iter()) {
+            if x != y && (e.st.bits != 128 || *y != (*x & u64::MAX as u128)) {
+                return false;
+            }
+        }
+    }
+    true
+}
+fn st_class(v: &RV) -> &'static str {
+    let mut l = vec![];
+    leaves_of(v, &mut l);
+    let mx = l.iter().map(|a| a.st.bits).max().unwrap_or(0);
+    match mx {
+        0 => "empty",
+        1 => "bit",
+        128 => "int128",
+        _ => "int<=64",
+    }
 }
 
-pub fn replay(_r: &Report, _rec: &serde_json::Value) -> i32 {
-    println!("MACHINERY-ERROR property=C10 replay not implemented");
-    2
+// ------------------------------------------------------------------ one evaluation
+
+enum Verdict {
+    Match,
+    ExpectedError,
+    Viol { kind: String, what: String, expected: J, observed: J },
+}
+
+fn check_one(b: &Built, op: &Op, operands: &[RV], exp: &Result<RV, RefErr>) -> Verdict {
+    let obs = evaluate(b, operands);
+    let name = op.name();
+    match (exp, obs) {
+        (_, Obs::Panic(p)) => Verdict::Viol {
+            kind: "panic".into(),
+            what: format!("{}: the evaluator panics", name),
+            expected: match exp {
+                Ok(e) => show_rv(e),
+                Err(e) => json!(format!("{:?}", e)),
+            },
+            observed: json!(format!("panic: {}", p)),
+        },
+        (Ok(e), Obs::Val(v)) => {
+            let et = type_of(e);
+            if et != b.out {
+                return Verdict::Viol {
+                    kind: "result-type-mismatch".into(),
+                    what: format!("{}: the node type {} differs from the documented result type {}", name, show_rt(&b.out), show_rt(&et)),
+                    expected: json!(show_rt(&et)),
+                    observed: json!(show_rt(&b.out)),
+                };
+            }
+            match from_value(&v, &b.out) {
+                None => Verdict::Viol {
+                    kind: "bad-layout".into(),
+                    what: format!("{}: the result value does not have the byte layout of its type {}", name, show_rt(&b.out)),
+                    expected: show_rv(e),
+                    observed: json!("<bad layout>"),
+                },
+                Some(o) => {
+                    if o == *e {
+                        Verdict::Match
+                    } else if lost_high_bits(e, &o) {
+                        Verdict::Viol {
+                            kind: "128bit-high-bits-lost".into(),
+                            what: format!("{}: 128-bit elements come back reduced to their low 64 bits", name),
+                            expected: show_rv(e),
+                            observed: show_rv(&o),
+                        }
+                    } else {
+                        Verdict::Viol {
+                            kind: format!("wrong-result:{}", st_class(e)),
+                            what: format!("{}: result differs from the documented semantics", name),
+                            expected: show_rv(e),
+                            observed: show_rv(&o),
+                        }
+                    }
+                }
+            }
+        }
+        (Ok(e), Obs::Err(m)) => Verdict::Viol {
+            kind: format!("error-on-valid-input:{}", st_class(e)),
+            what: format!("{}: evaluation of a well-typed node on valid data fails: {}", name, m),
+            expected: show_rv(e),
+            observed: json!(format!("error: {}", m)),
+        },
+        (Err(RefErr::Data(_)), Obs::Err(_)) => Verdict::ExpectedError,
+        (Err(RefErr::Data(d)), Obs::Val(v)) => Verdict::Viol {
+            kind: "no-error-on-invalid-data".into(),
+            what: format!("{}: data violating a documented precondition ({}) is not refused", name, d),
+            expected: json!(format!("error ({})", d)),
+            observed: from_value(&v, &b.out).map(|o| show_rv(&o)).unwrap_or(json!("<value>")),
+        },
+        (Err(e), o) => Verdict::Viol {
+            kind: "accepted-but-undefined".into(),
+            what: format!("{}: the builder accepts a combination for which the documentation defines no result ({:?})", name, e),
+            expected: json!(format!("{:?}", e)),
+            observed: match o {
+                Obs::Val(v) => from_value(&v, &b.out).map(|o| show_rv(&o)).unwrap_or(json!("<value>")),
+                Obs::Err(m) => json!(format!("error: {}", m)),
+                Obs::Panic(p) => json!(format!("panic: {}", p)),
+            },
+        },
+    }
+}
+
+// ------------------------------------------------------------------ one graph case
+
+fn operand_sets(c: &GCase) -> Vec<Vec<RV>> {
+    match &c.plan {
+        Plan::Gen(mode) => fills::fills(&c.args, *mode, c.bx).iter().map(|f| fills::operands(&c.args, f)).collect(),
+        Plan::Explicit(v) => v.clone(),
+        Plan::ExplicitAt(i, vals, mode) => {
+            let base: Vec<Vec<RV>> =
+                fills::fills(&c.args, *mode, c.bx).iter().map(|f| fills::operands(&c.args, f)).collect();
+            let mut out = vec![];
+            for v in vals {
+                for b in base.iter() {
+                    let mut o = b.clone();
+                    o[*i] = v.clone();
+                    out.push(o);
+                }
+            }
+            out
+        }
+    }
+}
+
+#[derive(Default)]
+struct CaseOut {
+    accepted: bool,
+    input_rejected: bool,
+    build_other: Option<String>,
+    evals: u64,
+    matches: u64,
+    expected_errors: u64,
+    viol_evals: u64,
+    above64: u64,
+    nontrivial: Vec<u64>,
+    viols: Vec<(String, String, J)>,
+    /// (signature, index of the operand set): the record is rebuilt at merge time only for a new signature
+    lazy_viols: Vec<(String, usize)>,
+    sample: Option<J>,
+    rej_defined: Option<J>,
+    flags: Vec<&'static str>,
+}
+
+fn has_nonzero(v: &RV) -> bool {
+    let mut l = vec![];
+    leaves_of(v, &mut l);
+    l.iter().any(|a| a.data.iter().any(|x| *x != 0))
+}
+fn any_above64(vs: &[RV]) -> bool {
+    let mut l = vec![];
+    vs.iter().for_each(|v| leaves_of(v, &mut l));
+    l.iter().any(|a| a.data.iter().any(|x| *x > u64::MAX as u128))
+}
+
+fn case_json(c: &GCase, operands: &[RV], expected: &J, observed: &J) -> J {
+    json!({
+        "op": serde_json::to_value(&c.op).unwrap(),
+        "arg_types": serde_json::to_value(&c.args).unwrap(),
+        "arg_types_readable": c.args.iter().map(show_rt).collect::<Vec<_>>(),
+        "operands": serde_json::to_value(operands).unwrap(),
+        "operands_readable": operands.iter().map(show_rv).collect::<Vec<_>>(),
+        "expected": expected,
+        "observed": observed,
+    })
+}
+
+fn run_case(c: &GCase, want_sample: bool) -> CaseOut {
+    let mut o = CaseOut::default();
+    let sets = operand_sets(c);
+    let first_exp = sets.first().map(|s| eval(&c.op, s));
+    let name = c.op.name();
+    let b = match build(&c.op, &c.args) {
+        Ok(b) => b,
+        Err(BuildErr::Input(_)) => {
+            o.input_rejected = true;
+            return o;
+        }
+        Err(BuildErr::Op(m)) => {
+            if let Some(Ok(_)) | Some(Err(RefErr::Data(_))) = first_exp {
+                o.rej_defined = Some(json!({"op": format!("{:?}", c.op), "arg_types": c.args.iter().map(show_rt).collect::<Vec<_>>(), "builder_says": m}));
+            }
+            return o;
+        }
+        Err(BuildErr::Other(m)) => {
+            o.build_other = Some(m.clone());
+            o.viols.push((
+                format!("C10:{}:graph-construction-failure", name),
+                format!("{}: graph construction fails after the node was accepted: {}", name, m),
+                case_json(c, &[], &json!(null), &json!(m)),
+            ));
+            return o;
+        }
+    };
+    o.accepted = true;
+    // non-vacuity flags
+    match &c.op {
+        Op::Add | Op::Subtract | Op::Multiply | Op::MixedMultiply | Op::Stack(_) => {
+            let shapes: Vec<String> = c.args.iter().map(|t| match t {
+                RT::Array(s, _) => format!("{:?}", s),
+                _ => "s".into(),
+            }).collect();
+            if shapes.iter().any(|s| *s != shapes[0]) {
+                o.flags.push("broadcasting_graphs_accepted");
+            }
+        }
+        Op::GetSlice(s) => {
+            if s.iter().any(|x| matches!(x, Sl::Sub(_, _, Some(st)) if *st < 0)) {
+                o.flags.push("negative_step_slices_accepted");
+            }
+            if s.contains(&Sl::Ellipsis) {
+                o.flags.push("ellipsis_slices_accepted");
+            }
+        }
+        Op::Dot | Op::Matmul => {
+            if c.args.iter().any(|t| matches!(t, RT::Array(s, _) if s.len() == 1)) {
+                o.flags.push("rank1_dot_matmul_graphs_accepted");
+            }
+        }
+        Op::Gemm(_, _) => {
+            if c.args.iter().any(|t| matches!(t, RT::Array(s, _) if s.len() > 2)) {
+                o.flags.push("gemm_batch_graphs_accepted");
+            }
+        }
+        _ => {}
+    }
+    let key = hash_str(&serde_json::to_string(&(&c.op, &c.args)).unwrap());
+    for (fi, ops) in sets.iter().enumerate() {
+        let exp = if fi == 0 { first_exp.clone().unwrap() } else { eval(&c.op, ops) };
+        o.evals += 1;
+        if any_above64(ops) {
+            o.above64 += 1;
+        }
+        match check_one(&b, &c.op, ops, &exp) {
+            Verdict::Match => {
+                o.matches += 1;
+                if let Ok(e) = &exp {
+                    if has_nonzero(e) {
+                        o.nontrivial.push(key ^ (fi as u64 + 1).wrapping_mul(0x9E3779B97F4A7C15));
+                    }
+                    if want_sample && o.sample.is_none() {
+                        o.sample = Some(json!({"op": format!("{:?}", c.op), "operands": ops.iter().map(show_rv).collect::<Vec<_>>(), "result": show_rv(e)}));
+                    }
+                }
+            }
+            Verdict::ExpectedError => o.expected_errors += 1,
+            Verdict::Viol { kind, .. } => {
+                o.viol_evals += 1;
+                let sig = format!("C10:{}:{}", name, kind);
+                if !o.lazy_viols.iter().any(|v| v.0 == sig) {
+                    o.lazy_viols.push((sig, fi));
+                }
+            }
+        }
+    }
+    o
+}
+
+/// re-executes operand set fi of a case and returns (what, record) of its violation
+fn violation_record(c: &GCase, fi: usize) -> Option<(String, J)> {
+    let sets = operand_sets(c);
+    let ops = sets.get(fi)?;
+    let b = build(&c.op, &c.args).ok()?;
+    let exp = eval(&c.op, ops);
+    match check_one(&b, &c.op, ops, &exp) {
+        Verdict::Viol { what, expected, observed, .. } => Some((what, case_json(c, ops, &expected, &observed))),
+        _ => None,
+    }
+}
+
+// ------------------------------------------------------------------ NumPy cross-check of E3
+
+fn numpy_eligible(op: &Op, args: &[RT]) -> bool {
+    let arrays_only = args.iter().all(|t| matches!(t, RT::Scalar(_) | RT::Array(_, _)));
+    match op {
+        Op::Repeat(_) | Op::Zip | Op::CreateTuple | Op::TupleGet(_) | Op::CreateNamedTuple(_) | Op::NamedTupleGet(_)
+        | Op::CreateVector(_) | Op::VectorGet | Op::Constant(_) => false,
+        Op::Reshape(t) => arrays_only && matches!(t, RT::Scalar(_) | RT::Array(_, _)),
+        Op::Zeros(t) | Op::Ones(t) => matches!(t, RT::Scalar(_) | RT::Array(_, _)),
+        Op::VectorToArray => true,
+        _ => arrays_only,
+    }
+}
+
+fn select_numpy(cases: &[GCase], accepted: &[usize], quota: usize, out: &mut Vec<J>) {
+    let elig: Vec<usize> = accepted.iter().cloned().filter(|i| numpy_eligible(&cases[*i].op, &cases[*i].args)).collect();
+    if elig.is_empty() {
+        return;
+    }
+    let mut taken = 0;
+    let mut round = 0usize;
+    while taken < quota && round < 64 {
+        let want = quota - taken;
+        let step = (elig.len() / want.max(1)).max(1);
+        let mut any = false;
+        for (ord, i) in elig.iter().step_by(step).enumerate() {
+            if taken >= quota {
+                break;
+            }
+            let c = &cases[*i];
+            let sets = operand_sets(c);
+            // a different operand set in every round, spread over the sets
+            let n = sets.len();
+            if round >= n {
+                continue;
+            }
+            let si = (round * 7 + ord * 3) % n;
+            if let Ok(e) = eval(&c.op, &sets[si]) {
+                out.push(json!({
+                    "id": out.len(),
+                    "op": serde_json::to_value(&c.op).unwrap(),
+                    "args": serde_json::to_value(&sets[si]).unwrap(),
+                    "expect": serde_json::to_value(&e).unwrap(),
+                }));
+                taken += 1;
+                any = true;
+            }
+        }
+        if !any {
+            break;
+        }
+        round += 1;
+    }
+}
+
+/// returns Err(message) on machinery problems, Ok((validated, skipped)) otherwise
+fn run_numpy(cases: &[J]) -> Result<(u64, u64), String> {
+    let dir = std::env::temp_dir();
+    let inp = dir.join(format!("c10-numpy-{}-in.json", std::process::id()));
+    let outp = dir.join(format!("c10-numpy-{}-out.json", std::process::id()));
+    std::fs::write(&inp, serde_json::to_string(&J::Array(cases.to_vec())).unwrap()).map_err(|e| e.to_string())?;
+    let script = concat!(env!("CARGO_MANIFEST_DIR"), "/src/props/c10/numpy_oracle.py");
+    let res = std::process::Command::new("python3-vt").arg(script).arg(&inp).arg(&outp).output();
+    let _ = std::fs::remove_file(&inp);
+    let res = res.map_err(|e| format!("cannot start python3-vt: {}", e))?;
+    if !res.status.success() {
+        let _ = std::fs::remove_file(&outp);
+        return Err(format!("numpy oracle failed: {}", String::from_utf8_lossy(&res.stderr).chars().take(600).collect::<String>()));
+    }
+    let txt = std::fs::read_to_string(&outp).map_err(|e| e.to_string())?;
+    let _ = std::fs::remove_file(&outp);
+    let j: J = serde_json::from_str(&txt).map_err(|e| e.to_string())?;
+    let mism = j["mismatches"].as_array().cloned().unwrap_or_default();
+    if !mism.is_empty() {
+        return Err(format!("E3 and NumPy disagree on {} cases, first: {}", mism.len(), mism[0]));
+    }
+    Ok((j["validated"].as_u64().unwrap_or(0), j["skipped"].as_u64().unwrap_or(0)))
+}
+
+// ------------------------------------------------------------------ driver
+
+type Fam = (&'static str, Box<dyn Fn(&Knobs) -> Vec<GCase>>);
+
+fn families() -> Vec<Fam> {
+    vec![
+        ("add", Box::new(|k| fam_arith(k, Op::Add))),
+        ("subtract", Box::new(|k| fam_arith(k, Op::Subtract))),
+        ("multiply", Box::new(|k| fam_arith(k, Op::Multiply))),
+        ("mixed_multiply", Box::new(|k| fam_mixed(k))),
+        ("dot", Box::new(|k| fam_dot_matmul(k, Op::Dot))),
+        ("matmul", Box::new(|k| fam_dot_matmul(k, Op::Matmul))),
+        ("gemm", Box::new(|k| fam_gemm(k))),
+        ("sum", Box::new(|k| fam_sum(k))),
+        ("cumsum", Box::new(|k| fam_cumsum(k))),
+        ("permute_axes", Box::new(|k| fam_permute(k))),
+        ("get", Box::new(|k| fam_get(k))),
+        ("get_slice_rank1", Box::new(|k| fam_getslice(k, 0))),
+        ("get_slice_rank2", Box::new(|k| fam_getslice(k, 1))),
+        ("get_slice_rank3", Box::new(|k| fam_getslice(k, 2))),
+        ("get_slice_rank4", Box::new(|k| fam_getslice(k, 3))),
+        ("gather", Box::new(|k| fam_gather(k))),
+        ("reshape", Box::new(|k| fam_reshape(k))),
+        ("stack2", Box::new(|k| fam_stack(k, 0))),
+        ("stack_n", Box::new(|k| fam_stack(k, 1))),
+        ("concatenate", Box::new(|k| fam_concat(k))),
+        ("vectors", Box::new(|k| fam_vectors(k))),
+        ("tuples", Box::new(|k| fam_tuples(k))),
+        ("a2b_b2a", Box::new(|k| fam_a2b_b2a(k))),
+        ("truncate", Box::new(|k| fam_truncate(k))),
+        ("constants", Box::new(|k| fam_constants(k))),
+        ("permutations", Box::new(|k| fam_perms(k))),
+        ("segment_cumsum", Box::new(|k| fam_segcumsum(k))),
+    ]
+}
+
+const ALL_OPS: [&str; 35] = [
+    "Add", "Subtract", "Multiply", "MixedMultiply", "Dot", "Matmul", "Gemm", "Sum", "CumSum", "PermuteAxes", "Get",
+    "GetSlice", "Gather", "Reshape", "Stack", "Concatenate", "Repeat", "Zip", "ArrayToVector", "VectorToArray",
+    "CreateTuple", "TupleGet", "CreateNamedTuple", "NamedTupleGet", "CreateVector", "VectorGet", "A2B", "B2A", "Truncate",
+    "Zeros", "Ones", "Constant", "InversePermutation", "ApplyPermutation", "SegmentCumSum",
+];
+
+fn knobs(r: &Report) -> Knobs {
+    if r.tier.thorough() {
+        Knobs { thorough: true, rmax: 4, bx_arith: 12, bx_struct: 8, bx_mixed: 8 }
+    } else {
+        Knobs { thorough: false, rmax: 3, bx_arith: 8, bx_struct: 4, bx_mixed: 4 }
+    }
+}
+
+pub fn run(r: &Report) -> i32 {
+    let k = knobs(r);
+    let only = std::env::var("C10_ONLY").ok();
+    let time_cap = if k.thorough { 13.0 * 60.0 } else { 55.0 };
+    // op -> [graphs tried, graphs accepted, evaluations, matching, violating evaluations]
+    let mut per_op: BTreeMap<String, [u64; 5]> = BTreeMap::new();
+    let mut np_cases: Vec<J> = vec![];
+    let mut rej_examples: Vec<J> = vec![];
+    let mut fam_times: Vec<J> = vec![];
+    let mut seen_dbg: Vec<String> = vec![];
+    let mut rej_seen: Vec<String> = vec![];
+    let mut sigs_seen: Vec<String> = vec![];
+    for (fname, f) in families() {
+        if let Some(o) = &only {
+            if !fname.starts_with(o.as_str()) {
+                continue;
+            }
+        }
+        if r.elapsed() > time_cap {
+            r.cap_hit(&format!("time cap reached before family {}", fname));
+            continue;
+        }
+        let t0 = r.elapsed();
+        let cases = f(&k);
+        let outs: Vec<CaseOut> = cases.par_iter().enumerate().map(|(i, c)| run_case(c, i < 40)).collect();
+        let mut accepted_idx = vec![];
+        for (i, (c, o)) in cases.iter().zip(outs.into_iter()).enumerate() {
+            let e = per_op.entry(c.op.name().to_string()).or_insert([0; 5]);
+            e[0] += 1;
+            r.count("graphs_tried", 1);
+            if o.input_rejected {
+                r.count("operand_types_refused_as_inputs", 1);
+            }
+            if o.accepted {
+                e[1] += 1;
+                accepted_idx.push(i);
+                r.count("graphs_accepted", 1);
+            } else if o.build_other.is_none() && !o.input_rejected {
+                r.count("graphs_refused_by_builder", 1);
+            }
+            e[2] += o.evals;
+            e[3] += o.matches;
+            e[4] += o.viol_evals;
+            r.count("evaluations", o.evals);
+            r.count("results_equal_to_reference", o.matches);
+            r.count("documented_data_errors_reported", o.expected_errors);
+            r.count("violating_evaluations", o.viol_evals);
+            r.count("evaluations_with_elements_above_2_64", o.above64);
+            for fl in o.flags.iter() {
+                r.count(fl, 1);
+            }
+            for h in o.nontrivial.iter() {
+                r.distinct(*h);
+            }
+            if let Some(s) = o.sample {
+                r.sample(s);
+            }
+            if let Some(x) = o.rej_defined {
+                r.count("builder_refused_but_reference_defined", 1);
+                let cls = format!("{}|{}", c.op.name(), crate::common::stable_msg(x["builder_says"].as_str().unwrap_or("")));
+                if rej_examples.len() < 40 && !rej_seen.contains(&cls) {
+                    rej_seen.push(cls);
+                    rej_examples.push(x);
+                }
+            }
+            let mut all_viols = o.viols;
+            for (sig, fi) in o.lazy_viols {
+                if sigs_seen.contains(&sig) {
+                    all_viols.push((sig, String::new(), J::Null));
+                } else {
+                    match violation_record(c, fi) {
+                        Some((what, case)) => {
+                            sigs_seen.push(sig.clone());
+                            all_viols.push((sig, what, case));
+                        }
+                        None => {
+                            println!("MACHINERY-ERROR property=C10 violation {} did not reproduce when re-executed (non-deterministic evaluation?)", sig);
+                            return 2;
+                        }
+                    }
+                }
+            }
+            for (sig, what, case) in all_viols {
+                if std::env::var("C10_DEBUG").is_ok() && !seen_dbg.contains(&sig) {
+                    seen_dbg.push(sig.clone());
+                    eprintln!("DEBUG {} | {} | types {} | operands {} | expected {} | observed {}", sig, what, case["arg_types_readable"], case["operands_readable"], case["expected"], case["observed"]);
+                }
+                r.violation(&sig, &what, case);
+            }
+        }
+        if k.thorough {
+            select_numpy(&cases, &accepted_idx, 800, &mut np_cases);
+        }
+        fam_times.push(json!({"family": fname, "graphs": cases.len(), "wall_s": ((r.elapsed() - t0) * 10.0).round() / 10.0}));
+    }
+    r.extra("per_operation_[graphs_tried,graphs_accepted,evaluations,equal,violating]", json!(per_op));
+    r.extra("builder_refused_but_reference_defined_examples", J::Array(rej_examples));
+    r.extra("families", J::Array(fam_times));
+    if only.is_none() {
+        for op in ALL_OPS {
+            let e = per_op.get(op).cloned().unwrap_or([0; 5]);
+            if e[1] == 0 || e[2] == 0 {
+                println!("MACHINERY-ERROR property=C10 vacuous: operation {} has no accepted graph / no evaluation", op);
+                return 2;
+            }
+        }
+    }
+    if k.thorough {
+        match run_numpy(&np_cases) {
+            Ok((n, skipped)) => {
+                r.count("refmodel_cases_validated_by_numpy", n);
+                r.count("refmodel_cases_not_expressible_in_numpy", skipped);
+            }
+            Err(m) => {
+                println!("MACHINERY-ERROR property=C10 {}", m);
+                return 2;
+            }
+        }
+    }
+    let mut keys = vec![
+        "evaluations",
+        "graphs_accepted",
+        "graphs_refused_by_builder",
+        "results_equal_to_reference",
+        "evaluations_with_elements_above_2_64",
+    ];
+    if only.is_none() {
+        keys.extend_from_slice(&[
+            "broadcasting_graphs_accepted",
+            "negative_step_slices_accepted",
+            "ellipsis_slices_accepted",
+            "rank1_dot_matmul_graphs_accepted",
+            "gemm_batch_graphs_accepted",
+            "documented_data_errors_reported",
+        ]);
+    }
+    if k.thorough {
+        keys.push("refmodel_cases_validated_by_numpy");
+    }
+    r.finish(
+        "exploration",
+        "one-operation graphs: 35 primitive operations x 11 scalar types x shapes of rank<=3 (thorough: 4) with dims in {1,2,3} \
+         (+ a few longer rank-1 arrays) x parameter alphabets (axes subsets/orders, axis permutations, index prefixes, slices over \
+         {SingleIndex(0,-1,2), SubArray(None|0|1|-1, None|2|-1, None|1|2|-1|-2), Ellipsis}, stack outer shapes, gemm flags, \
+         truncation scales, all permutations / injective index arrays) x operand fills (ramps with distinct elements, the element \
+         alphabet {0,1,2,-1,min,max,2^63,2^64,2^64+1,2^100+5,2^127} reduced to the type in rotating positions, all alphabet pairs \
+         for binary arithmetic on rank<=1 (thorough: rank<=2) operands; bit operands: all values up to 8/4 (thorough 12/8) elements for arithmetic/structural \
+         operations, 8 fixed patterns above); the real builder decides well-typedness; distinct = (graph, fill) pairs whose \
+         expected result has a non-zero element and that compared equal",
+        true,
+        &[
+            "Truncate on negative values: the doc says 'divides by scale'; the quotient is taken rounded toward zero (the convention stated in the evaluator's comment)",
+            "A2B/B2A bit order: least significant bit first (not stated in the doc; the only order consistent with the little-endian value layout)",
+            "ApplyPermutation direction: result[i] = a[p[i]] (NumPy a[p]); inverse: result[p[i]] = a[i]; the doc only says 'applies a permutation'",
+            "slices that NumPy accepts by clamping out-of-range bounds but the builder refuses are counted (builder_refused_but_reference_defined), not reported: the builder defines admissibility",
+            "rank-4 operand pairs of Dot/Matmul/Gemm are generated only where the reference semantics is defined (all pairs up to rank 3)",
+        ],
+        &keys,
+    )
+}
+
+pub fn replay(_r: &Report, rec: &J) -> i32 {
+    let case = &rec["case"];
+    let op: Op = match serde_json::from_value(case["op"].clone()) {
+        Ok(x) => x,
+        Err(e) => {
+            println!("MACHINERY-ERROR property=C10 replay: cannot parse op: {}", e);
+            return 2;
+        }
+    };
+    let args: Vec<RT> = match serde_json::from_value(case["arg_types"].clone()) {
+        Ok(x) => x,
+        Err(e) => {
+            println!("MACHINERY-ERROR property=C10 replay: cannot parse arg_types: {}", e);
+            return 2;
+        }
+    };
+    let operands: Vec<RV> = match serde_json::from_value(case["operands"].clone()) {
+        Ok(x) => x,
+        Err(e) => {
+            println!("MACHINERY-ERROR property=C10 replay: cannot parse operands: {}", e);
+            return 2;
+        }
+    };
+    println!("operation: {:?}", op);
+    println!("operand types: {:?}", args.iter().map(show_rt).collect::<Vec<_>>());
+    for (i, o) in operands.iter().enumerate() {
+        println!("operand {}: {}", i, show_rv(o));
+    }
+    let b = match build(&op, &args) {
+        Ok(b) => b,
+        Err(BuildErr::Input(m)) | Err(BuildErr::Op(m)) => {
+            println!("the builder refuses the graph now: {}", m);
+            return 0;
+        }
+        Err(BuildErr::Other(m)) => {
+            println!("graph construction fails: {}", m);
+            return 1;
+        }
+    };
+    println!("node type: {}", show_rt(&b.out));
+    let exp = eval(&op, &operands);
+    match check_one(&b, &op, &operands, &exp) {
+        Verdict::Match => {
+            println!("expected == observed: {}", exp.map(|e| show_rv(&e)).unwrap_or(json!("error")));
+            println!("NOT REPRODUCED");
+            0
+        }
+        Verdict::ExpectedError => {
+            println!("documented data error is reported");
+            println!("NOT REPRODUCED");
+            0
+        }
+        Verdict::Viol { kind, what, expected, observed } => {
+            println!("expected: {}", expected);
+            println!("observed: {}", observed);
+            println!("REPRODUCED C10:{}:{} - {}", op.name(), kind, what);
+            1
+        }
+    }
 }
